@@ -227,3 +227,12 @@ package codec
 //@ func (*decoder).decodeObjectInner$1
 //@   assert at decodeValue#0 known: err == nil && prop != nil
 //@   assert at return#0 rejected: result0 != nil
+
+// ---- scalar and enum members (C03): the token read is the value stored, a wrong JSON type is an error ------------
+//@ import json "encoding/json"
+//@ func (*decoder).decodeScalar
+//@   assert at SetGoValue#0 stored: arg0 == token && token != nil && !typeis(token, json.Delim)
+//@   assert at return#4 delimiter: result0 != nil
+//@ func (*decoder).decodeEnum
+//@   assert at SetFromString#0 stored: typeis(token, string) && arg0 == as(string, token)
+//@   assert at return#4 wrongtype: result0 != nil && !typeis(token, string)
